@@ -202,10 +202,10 @@ CHECKS = {
        "(Closed under the global context) are the per-endpoint facts the pair property rests on, for all states: fragmentation independence "
        "(C09), a transport loss leaves nothing of the cut connection behind and keeps a persistent session (C10), unmatched acknowledgements "
        "are protocol errors (C06); and of the PAIR, for every sender state satisfying the ownership invariant and every established "
-       "receiver state (v3.1.1, automatic responses, intact link): one QoS 1 exchange and one QoS 2 exchange complete - PUBLISH requested, "
+       "receiver state (v3.1.1, and v5.0 with no topic alias in play and the packets within the negotiated limits; automatic responses, intact link): one QoS 1 exchange and one QoS 2 exchange complete - PUBLISH requested, "
        "notified exactly once, every acknowledgement requested by one side is accepted by the other, the identifier is released at the end "
-       "and nothing of the exchange stays behind, no call panics (C01_pair_qos1_completes, C01_pair_qos2_completes), tied to step by "
-       "C01_send_call_is_send_publish / C01_recv_call_is_deliver. A pair invariant with a termination measure for arbitrarily many concurrent "
+       "and nothing of the exchange stays behind (v5.0: the Receive Maximum slot is given back), no call panics (C01_pair_qos1_completes, "
+       "C01_pair_qos2_completes, ..._v5), tied to step by C01_send_call_is_send_publish / C01_recv_call_is_deliver (..._v5). A pair invariant with a termination measure for arbitrarily many concurrent "
        "exchanges, loss points and v5.0 limits is NOT proved (C01_partial): that is the monitor's part.",
   ref="DESIGN.md §3 C01",
   note=CONN_NOTE + " C01 replays re-run the seeded scheduler of the case on the current implementation (no shrinking).",
